@@ -43,7 +43,10 @@ def replay_population(col, item):
     files = [tuple(f) for f in case["F"]]
     tree = Tree(files, emb, layout, style)
     try:
-        fs = tree.fileset(handler=PickleHandler())
+        kw = {}
+        if style.startswith("fullend") and (len(files) + case["close"][0][0]) % 2 == 0:
+            kw["time_coverage"] = emb.unit        # the names carry their end: a nominal coverage must not replace it
+        fs = tree.fileset(handler=PickleHandler(), **kw)
         for h, adm in case["close"]:
             t = emb.half(h)
             conc = {"embedding": emb_name, "layout": layout, "style": style, "R_ticks": R, "timestamp": str(t)}
